@@ -131,7 +131,7 @@ func c04Rules(tier string) []Rule {
 			rs = append(rs, core.RetLeavesGuarded(w, id, "RET", sn+"Taints", 0, `NodeClaim\.Spec\.Taints$|^lo\.Reject\[`,
 				G(`+^\(\*state\.StateNode\)\.Registered\(\$0\)$`, `-^\(\*state\.StateNode\)\.Managed\(\$0\)$`), 1,
 				"Node taints are only used once the node is registered (or unmanaged)")...)
-			rs = append(rs, core.ArgProvenance(w, id, sn+"Taints", `^call lo\.Reject\[corev1\.Taint`, 0, `^phi\(\$0\.NodeClaim\.Spec\.Taints\|\$0\.Node\.Spec\.Taints\)$`, "the filter is applied to the selected taints")...)
+			rs = append(rs, core.ArgProvenance(w, id, sn+"Taints", `^call lo\.Reject\[corev1\.Taint`, 0, `^phi\(\$0\.Node\.Spec\.Taints\|\$0\.NodeClaim\.Spec\.Taints\)$`, "the filter is applied to the selected taints")...)
 			return rs
 		}},
 		MPT{ID: "C04.VIEW1b", Fn: sn + "Taints$1", Ret: core.RetFalse, Gates: gates(
